@@ -15,6 +15,7 @@ import Driver.UnparseDrv
 import Driver.TypedefsDrv
 import Driver.StmtCtxDrv
 import Driver.GuessRoleDrv
+import Driver.DeclParserDrv
 /-! `psymodel <component>`: reads one case per line on stdin, answers one line per case. -/
 
 partial def loop (h : IO.FS.Stream) (out : IO.FS.Stream) (f : String → String) : IO Unit := do
@@ -43,5 +44,6 @@ def main (args : List String) : IO UInt32 := do
   | ["typedefs"] => loop stdin stdout Driver.TypedefsDrv.handle; return 0
   | ["stmtctx"] => loop stdin stdout Driver.StmtCtxDrv.handle; return 0
   | ["guessrole"] => loop stdin stdout Driver.GuessRoleDrv.handle; return 0
+  | ["declparser"] => loop stdin stdout Driver.DeclParserDrv.handle; return 0
   | ["climb"] => loop stdin stdout Driver.ClimbDrv.handle; return 0
   | _ => IO.eprintln "usage: psymodel <component>"; return 2
